@@ -23,7 +23,14 @@ RULE = ("inputs = every repository fixture + generated documents of every format
 ASSUMPTIONS = ["hash seeds sampled, not exhausted", "extraction failures are compared by exception type only (their messages are C01's business)"]
 
 OBSERVERS = ["full_text", "units", "unit_texts", "unit_images", "unit_tables", "unit_meta", "images_full", "images_partial", "images_meta", "tables", "dims", "metadata", "to_json",
-             "no_binary", "dumps", "unit_json"]
+             "no_binary", "dumps", "unit_json", "full_text_flipped", "unit_texts_flipped"]
+
+
+def _flipped(fn):
+    """Call an observer with every boolean keyword option set to the opposite of its default (e.g. include_image_captions=True)."""
+    import inspect
+    kw = {n: (not p.default) for n, p in inspect.signature(fn).parameters.items() if isinstance(p.default, bool)}
+    return fn(**kw)
 
 
 def _extract(ext, data):
@@ -39,6 +46,10 @@ def observe(r, name):
     from sharepoint2text.parsing.extractors.serialization import serialize_extraction
     if name == "full_text":
         return r.get_full_text()
+    if name == "full_text_flipped":
+        return _flipped(r.get_full_text)
+    if name == "unit_texts_flipped":
+        return [_flipped(u.get_text) for u in _flipped(r.iterate_units)]
     if name == "units":
         return len(list(r.iterate_units()))
     if name == "unit_texts":
@@ -72,6 +83,26 @@ def observe(r, name):
     raise ValueError(name)
 
 
+_REF_CACHE: dict = {}
+
+
+def fresh_reference(ext, data):
+    """{(result index, observer): value on a result object nobody has observed before} - one extraction per observer."""
+    key = hashlib.sha256(ext.encode() + data).hexdigest()
+    if key not in _REF_CACHE:
+        ref = {}
+        for name in OBSERVERS:
+            try:
+                for ri, r in enumerate(_extract(ext, data)):
+                    ref[(ri, name)] = observe(r, name)
+            except Exception:  # noqa
+                pass
+        if len(_REF_CACHE) > 64:
+            _REF_CACHE.clear()
+        _REF_CACHE[key] = ref
+    return _REF_CACHE[key]
+
+
 def judge_history(ext, data, history):
     """history: list of observer names. -> fails"""
     try:
@@ -79,6 +110,7 @@ def judge_history(ext, data, history):
     except Exception:  # noqa
         return []
     fails = []
+    ref = fresh_reference(ext, data)
     for ri, r in enumerate(results):
         try:
             snap = json.dumps(r.to_json(), sort_keys=True, default=repr)
@@ -95,6 +127,9 @@ def judge_history(ext, data, history):
                 fails.append(("idempotent", f"observer {name} returned something different at step {step} than at its first call (history {history[:step + 1]})"))
                 return fails
             first.setdefault(name, val)
+            if (ri, name) in ref and ref[(ri, name)] != val:
+                fails.append(("observation-order", f"observer {name} at step {step} returned something different from what it returns on a result nobody has observed before (history {history[:step + 1]})"))
+                return fails
             now = json.dumps(r.to_json(), sort_keys=True, default=repr)
             if now != snap:
                 fails.append(("observation-changes-result", f"to_json() changed after observer {name} at step {step} (history {history[:step + 1]})"))
@@ -123,6 +158,7 @@ def generated_inputs(ctx: Ctx, per_format: int):
     from vf.gen import model, sheets
     from vf.gen.profiles import PROFILES
     from vf.props import c14
+    from vf.gen.tokens import make as _mk0
     out = []
 
     def collect(label, strat, render, ext, n):
@@ -147,6 +183,19 @@ def generated_inputs(ctx: Ctx, per_format: int):
     for fmt in c14.FORMATS_IMG:
         ext = PROFILES[fmt]["ext"] if fmt in PROFILES else fmt
         collect("img-" + fmt, c14.cases(fmt), lambda c: c14.build(c)[0], ext, max(2, per_format // 2))
+    # pictures with alternative text next to body text: observers with options (include_image_captions) have something to differ in
+    for fmt in ("pptx", "docx", "odt", "odp"):
+        if fmt in c14.FORMATS_IMG:
+            case = {"format": fmt, "opts": {}, "units": [[{"k": "p", "tok": _mk0("B", 8700)}, {"k": "img", "type": "png", "w": 9, "h": 7, "seed": 3, "alt": "caption " + _mk0("M", 8701)},
+                                                          {"k": "p", "tok": _mk0("B", 8702)}, {"k": "img", "type": "jpeg", "w": 11, "h": 5, "seed": 4, "alt": "caption " + _mk0("M", 8703)}]]}
+            out.append({"name": f"alt:{fmt}", "ext": PROFILES[fmt]["ext"], "data": c14.build(case)[0]})
+    # packages that declare their image types differently ([Content_Types].xml Defaults under other registered names, then per-part Overrides only):
+    # a declaration must stay with its own document
+    for fmt in ("docx", "pptx"):
+        for ct in ("alias", "override"):
+            case = {"format": fmt, "opts": {"ct": ct}, "units": [[{"k": "p", "tok": _mk0("B", 8710)}, {"k": "img", "type": "jpeg", "w": 9, "h": 7, "seed": 5}, {"k": "img", "type": "png", "w": 6, "h": 7, "seed": 6},
+                                                                   {"k": "img", "type": "bmp", "w": 5, "h": 4, "seed": 7}]]}
+            out.append({"name": f"pair:ct-{ct}.{fmt}", "ext": fmt, "data": c14.build(case)[0]})
     # office documents whose core properties lack one or both timestamps (nothing may be filled in from the clock)
     from vf.gen import ooxml
     from vf.gen.tokens import make as _mk
@@ -250,6 +299,11 @@ def history_shard(ctx: Ctx, inputs):
                                                                       "bytes_b64": __import__("base64").b64encode(it["data"]).decode() if len(it["data"]) < 200000 else None}))
             return out
         hyp_search(ctx, "hist-" + it["name"], hist, ev, n, part, model_shrink=False, shrink_budget_s=8)
+        ref = fresh_reference(it["ext"], it["data"])
+        if any(ref.get((ri, "full_text")) != ref.get((ri, "full_text_flipped")) for ri in range(4)):
+            # the observer options matter for this result: histories over the option-taking observers and their plain twins
+            few = st.lists(st.sampled_from(["full_text", "full_text_flipped", "unit_texts", "unit_texts_flipped", "to_json", "units"]), min_size=2, max_size=6)
+            hyp_search(ctx, "hist-options-" + it["name"], few, ev, n, part, model_shrink=False, shrink_budget_s=8)
     return part
 
 
